@@ -82,9 +82,26 @@ def _env_written(cd):
     return False
 
 
+class _Prepared:
+    """Read-only view of the body table in which closure bodies come out prepared (helper calls of
+    functions outside the reference vocabulary inlined, as Facts.body does for named functions)."""
+
+    def __init__(self, bodies, prep):
+        self.raw, self.prep, self.memo = bodies, prep, {}
+
+    def __contains__(self, name):
+        return name in self.raw
+
+    def __getitem__(self, name):
+        if name not in self.memo:
+            b = self.raw[name]
+            self.memo[name] = self.prep(b) if self.prep is not None and b.get("kind") == "Closure" else b
+        return self.memo[name]
+
+
 class _Builder:
-    def __init__(self, bodies, d):
-        self.bodies = bodies
+    def __init__(self, bodies, d, prep=None):
+        self.bodies = _Prepared(bodies, prep)
         self.cidx = _closure_index(bodies)
         nd = {k: v for k, v in d.items() if k not in ("blocks", "locals", "debug")}
         nd["blocks"] = copy.deepcopy(d["blocks"])
@@ -248,6 +265,17 @@ class _Builder:
         if pred is None or chain is None:
             return False
         base, maps = chain
+        # the base iterator may be `std::iter::successors(first, f)`: by definition the iterator whose
+        # state is an Option<T>, that yields the state's payload and replaces the state by f(&payload)
+        succ = None
+        bdefs = _whole_defs(self.d, base)
+        if len(bdefs) == 1 and bdefs[0][0] == "call":
+            bt = self.d["blocks"][bdefs[0][1]]["term"]
+            if bt.get("callee") in _CALLS and bt.get("closure_args"):
+                return False      # a closure call that returns the iterator: spliced first, next round
+            if bt.get("callee") == "std::iter::successors" and len(bt["args"]) == 2 and bt.get("target") is not None \
+                    and self.closure_of_operand(bt["args"][1]) and self.bodies[self.closure_of_operand(bt["args"][1])]["arg_count"] == 2:
+                succ = (bdefs[0][1], bt)
         names = [self.closure_of_operand(m) for m in maps]
         pcd = self.bodies[pred]
         if pcd["arg_count"] != 2 or any(self.bodies[n]["arg_count"] != 2 for n in names):
@@ -276,8 +304,20 @@ class _Builder:
             b_end = self.new_block([{"k": "assign", "place": dest, "rv": {"k": "aggregate", "agg": "adt", "adt": "std::option::Option", "variant": "None", "fields": []}, "span": span, "synthetic": True}],
                                    {"k": "goto", "target": target, "span": span})
         b_unr = self.new_block([], {"k": "unreachable", "span": span})
+        if succ is not None:
+            sbb, bt = succ
+            fname = self.closure_of_operand(bt["args"][1])
+            st_ty = bt["args"][0]["place"]["ty"] if bt["args"][0]["k"] in ("copy", "move") else opt_ty
+            l_state = self.new_local(st_ty or opt_ty)
+            l_fn = self.new_local(bt["args"][1]["place"]["ty"])
+            sblk = self.d["blocks"][sbb]
+            sblk["stmts"].append(self.assign(l_state, {"k": "use", "op": bt["args"][0]}, bt["span"]))
+            sblk["stmts"].append(self.assign(l_fn, {"k": "use", "op": bt["args"][1]}, bt["span"]))
+            sblk["term"] = {"k": "goto", "target": bt["target"], "span": bt["span"], "expanded_successors": fname}
+            head = self.new_block([self.assign(l_opt, {"k": "use", "op": self.cp(l_state)}, span)], {"k": "goto", "target": None, "span": span})
+            self.done.append("iter::successors")
         cf, rs = self.next_names(ity)
-        head = self.new_block(
+        head = head if succ is not None else self.new_block(
             [self.assign(l_ref, {"k": "ref", "mut": True, "place": self.pl(base, ity)}, span)],
             {"k": "call", "callee": "std::iter::Iterator::next", "callee_full": cf, "generic_args": [ity], "callee_local": False, "resolved": rs,
              "resolved_local": False, "args": [self.mv(l_ref)], "arg_tys": ["&mut " + ity], "closure_args": [], "dest": self.pl(l_opt, opt_ty),
@@ -318,6 +358,13 @@ class _Builder:
             entry = self.splice_closure(names[k], maps[k], False, [self.mv(vals[k])], self.pl(vals[k + 1], self.local_ty(vals[k + 1])), entry, span)
             if entry is None:
                 return False
+        if succ is not None:
+            fparam_ty = self.bodies[fname]["locals"][2]["ty"]
+            l_xr = self.new_local(fparam_ty)
+            fentry = self.splice_closure(fname, self.mv(l_fn), False, [self.mv(l_xr)], self.pl(l_state, self.local_ty(l_state)), entry, span)
+            if fentry is None:
+                return False
+            entry = self.new_block([self.assign(l_xr, {"k": "ref", "mut": False, "place": self.pl(l_item, item_ty)}, span)], {"k": "goto", "target": fentry, "span": span})
         self.d["blocks"][some]["term"]["target"] = entry
         blk["term"] = {"k": "goto", "target": head, "span": span, "expanded_fold": kind}
         self.done.append("Iterator::" + kind)
@@ -365,13 +412,14 @@ class _Builder:
                 return
 
 
-def expand(bodies, d):
-    """(expanded body dict, [what was expanded]); `d` is returned unchanged when nothing applies."""
+def expand(bodies, d, prep=None):
+    """(expanded body dict, [what was expanded]); `d` is returned unchanged when nothing applies.
+    prep: optional function applied to a closure body (dict) before it is spliced."""
     has = any(blk["term"]["k"] == "call" and blk["term"].get("closure_args") and
               (blk["term"].get("callee") in _FOLDS or blk["term"].get("callee") in _CALLS) for blk in d["blocks"] if not blk["cleanup"])
     if not has:
         return d, []
-    bld = _Builder(bodies, d)
+    bld = _Builder(bodies, d, prep)
     bld.run()
     if not bld.done:
         return d, []
@@ -388,14 +436,17 @@ def xbody(facts, name, keep=()):
     keep = frozenset(k for k in keep if k and facts.known is not None and k not in facts.known)
     key = (name, keep) if keep else name
     if key not in cache:
+        from .inline import inline_body
+        prep = None
+        if facts.known is not None:
+            prep = lambda cd: inline_body(facts.d["bodies"], cd, lambda c: facts._is_helper(c) and c not in keep)[0]
         if keep:
-            from .inline import inline_body
             if name not in facts.d["bodies"]:
                 return facts.body(name)     # raises AnchorMissing
             d, _ = inline_body(facts.d["bodies"], facts.d["bodies"][name], lambda c: facts._is_helper(c) and c not in keep)
             b = Body(facts, d)
         else:
             b = facts.body(name)
-        d2, done = expand(facts.d["bodies"], b.d)
+        d2, done = expand(facts.d["bodies"], b.d, prep)
         cache[key] = b if not done else Body(facts, d2)
     return cache[key]
